@@ -90,6 +90,10 @@ THEOREMS = [
     'CpProofs.C17.C17_gzip_no_optional_fields',
     'CpProofs.C17.C17_gzip_roundtrip_full',
     'CpProofs.C17.header_table_live',
+    'CpProofs.C17.fileGen_lossless',
+    'CpProofs.C17.fileGen_eof',
+    'CpProofs.C17.fileGenLimited_lossless',
+    'CpProofs.C17.C17_file_body_roundtrip',
     'CpProofs.C17.C17_charset_star_respects_explicit',
 ]
 LEVEL = 'proof'
@@ -317,6 +321,36 @@ class _FakeTime:
         return cls.now
 
 
+class ShortReader(object):
+    """A file-like body with SHORT READS (a pipe, a socket, a capped reader): read(n) returns at most n bytes and at
+    most what is left of the current segment, at least one byte while data is left, b'' only at end of file."""
+
+    def __init__(self, segments):
+        self.segs = [bytes(x) for x in segments if len(x)]
+        self.log = []               # what every read() returned
+        self.closed = False
+
+    def read(self, n=-1):
+        if not self.segs:
+            self.log.append(b'')
+            return b''
+        if n is None or n < 0:
+            out = b''.join(self.segs)
+            self.segs = []
+        else:
+            seg = self.segs[0]
+            out, rest = seg[:n], seg[n:]
+            if rest:
+                self.segs[0] = rest
+            else:
+                self.segs.pop(0)
+        self.log.append(out)
+        return out
+
+    def close(self):
+        self.closed = True
+
+
 def _setup():
     if _STATE['ready']:
         return
@@ -348,6 +382,17 @@ def _setup():
                 return list(chunks)
             if kind == 'file':
                 return io.BytesIO(b''.join(chunks))
+            if kind == 'shortfile':
+                return ShortReader(chunks)          # -> prepare_iter / ResponseBody -> lib.file_generator
+            if kind in ('servefile', 'servefile_cl'):
+                from cherrypy.lib import static
+                f = ShortReader(chunks)
+                if kind == 'servefile_cl':
+                    # what serve_fileobj does for a file with a known length: Content-Length + file_generator_limited
+                    n = sum(len(x) for x in chunks)
+                    resp.headers['Content-Length'] = str(n)
+                    return cherrypy.lib.file_generator_limited(f, n)
+                return static.serve_fileobj(f, content_type=c['ct'])
             return (x for x in chunks)
 
         @cherrypy.expose
@@ -1188,7 +1233,8 @@ def gen_mime_grid(rng):
 
 def gen_gz_case(rng, big=False):
     chunks = gen_body(rng, big)
-    kind = rng.choice(['bytes', 'list', 'list', 'gen', 'gen', 'stream', 'file'])
+    kind = rng.choice(['bytes', 'list', 'list', 'gen', 'gen', 'stream', 'file', 'shortfile', 'shortfile', 'servefile',
+                       'servefile_cl'])
     ae = gen_accept(rng, CODINGS)
     if rng.random() < 0.35:
         ae = rng.choice(['gzip', 'gzip', 'x-gzip', 'gzip, deflate', 'gzip;q=1.0, identity; q=0.5, *;q=0',
@@ -1206,6 +1252,8 @@ def gen_gz_case(rng, big=False):
                        'Accept-Language ,  Cookie', ',', '*', 'Accept-EncodingX'])
     mtime = rng.choice([0, 1, 1700000000, 1700000000.75, 2 ** 32 - 1, 2 ** 32, 2 ** 32 + 5, 2 ** 40 + 3,
                         rng.randint(0, 2 ** 33)])
+    if kind == 'servefile' and ct is None:
+        kind = 'shortfile'          # serve_fileobj sets a Content-Type of its own
     return {'t': 'gz', 'chunks': [c.hex() for c in chunks], 'kind': kind, 'ae': ae, 'mimes': mimes, 'ct': ct,
             'level': rng.randint(0, 9), 'vary': vary, 'cl': rng.random() < 0.3, 'cached': rng.random() < 0.03,
             'mtime': mtime, 'enc': rng.random() < 0.15, 'debug': rng.random() < 0.06}
@@ -1227,6 +1275,55 @@ ALPHABETS = [
     'abc\xe9\u20ac\u0434\u03b2\u6bdb\U0001f600',
     'ab\ud800c',          # a lone surrogate: not even the default utf-8 can represent it
 ]
+
+
+# Codecs of the standard library whose incremental encoder keeps state or HOLDS OUTPUT BACK until it is told that the
+# text has ended (shift sequences, a character that may still combine with the next one, a signature): name ->
+# (letters the codec can represent, letters after which the encoder still holds something back)
+_JA = '\u65e5\u672c\u8a9e\u3067\u3059\u306e\u306f abc\u30a2'
+_JA_HELD = '\u304b\u304d\u304f\u3051\u3053\u30bb\u30c4\u30c8'          # ka ki ku ke ko / SE TSU TO
+_LAT_HELD = '\u00e6\u0259\u0254'                                       # ae, schwa, open o
+STATEFUL = {
+    'iso-2022-jp': (_JA, _JA_HELD), 'iso-2022-jp-1': (_JA, _JA_HELD), 'iso-2022-jp-2': (_JA + '\ud55c\uad6d', _JA_HELD),
+    'iso-2022-jp-2004': (_JA, _JA_HELD + _LAT_HELD), 'iso-2022-jp-3': (_JA, _JA_HELD + _LAT_HELD),
+    'iso-2022-jp-ext': (_JA, _JA_HELD), 'iso-2022-kr': ('\ud55c\uad6d\uc5b4 abc', '\ud55c\uc5b4'),
+    'shift_jisx0213': (_JA, _JA_HELD + _LAT_HELD), 'shift_jis_2004': (_JA, _JA_HELD + _LAT_HELD),
+    'euc-jisx0213': (_JA, _JA_HELD + _LAT_HELD), 'euc_jis_2004': (_JA, _JA_HELD + _LAT_HELD),
+    'hz': ('\u4e2d\u6587\u6bdb abc', '\u4e2d\u6587'), 'big5hkscs': ('\u4e2d\u6587 abc', '\u00ca\u00ea'),
+    'utf-7': ('ab\u20ac\u65e5+-', '\u20ac\u65e5+'), 'utf-16': ('ab\u20ac\U0001f600', 'b\U0001f600'),
+    'utf-32': ('ab\u20ac\U0001f600', 'b\U0001f600'), 'utf-8-sig': ('ab\u20ac', '\u20ac'),
+}
+
+
+def gen_stateful_cs_case(rng):
+    """a text that ENDS in a state the encoder has to be told about (held-back character, open shift sequence),
+    announced in a stateful codec, streamed and buffered, in one or several chunks (cut also right before the end)"""
+    name = rng.choice(sorted(STATEFUL))
+    alpha, held = STATEFUL[name]
+    n = rng.choice([0, 0, 1, 2, 3, 5, 9, 30])
+    text = ''.join(rng.choice(alpha + held) for _ in range(n)) + rng.choice(held)
+    c = rng.random()
+    if c < 0.35:
+        chunks = [text]
+    elif c < 0.5:
+        chunks = list(text)
+    elif c < 0.7:
+        chunks = [text[:-1], text[-1:]]
+    else:
+        cuts = sorted(rng.randint(0, len(text)) for _ in range(rng.choice([1, 2, 3])))
+        chunks, prev = [], 0
+        for x in cuts + [len(text)]:
+            chunks.append(text[prev:x])
+            prev = x
+    if rng.random() < 0.2:
+        chunks.append('')
+    kind = rng.choice(['str', 'list', 'gen', 'stream', 'stream', 'stream'])
+    spell = rng.choice([name, name, name.upper(), name.replace('-', '_')])
+    ac = rng.choice([spell, spell, spell + ', utf-8;q=0.5', spell + ';q=0.9, *;q=0.1', 'us-ascii;q=0.2, ' + spell])
+    forced = spell if rng.random() < 0.15 else None
+    return {'t': 'cs', 'chunks': chunks, 'kind': kind, 'ac': ac, 'forced': forced,
+            'ct': rng.choice(['text/html', 'text/plain', 'text/plain; format=flowed']), 'text_only': True,
+            'add_charset': True, 'cl': False, 'debug': False}
 
 
 def gen_text_chunks(rng):
@@ -1256,6 +1353,8 @@ CS_CTS = ['text/html', 'text/html', 'text/plain', 'text/plain', 'text/html;chars
 
 
 def gen_cs_case(rng):
+    if rng.random() < 0.2:
+        return gen_stateful_cs_case(rng)
     chunks = gen_text_chunks(rng)
     kind = rng.choice(['str', 'list', 'list', 'gen', 'gen', 'stream'])
     if not chunks and rng.random() < 0.3:
@@ -1648,6 +1747,29 @@ def eval_case_unguarded(case):
             f2, rec['frame'], h2 = member_check([plain], case['level'], case.get('mtime', 0), obs['body'])
             rec['fails'] += f2
             rec['hist'] += h2
+    elif t == 'fgen':
+        from cherrypy import lib as _lib
+        segs = [bytes.fromhex(x) for x in case['chunks']]
+        data = b''.join(segs)
+        f = ShortReader(segs)
+        try:
+            if case['count'] is None:
+                out = list(_lib.file_generator(f, case['size']))
+                want = data
+            else:
+                out = list(_lib.file_generator_limited(f, case['count'], case['size']))
+                want = data[:case['count']]
+            rec['impl'] = L(H(c) for c in out)
+            if b''.join(out) != want:
+                rec['fails'] = [('a file-like body with short reads is delivered as %d of %d bytes (reads of %s bytes)'
+                                 % (len(b''.join(out)), len(want), [len(x) for x in f.log][:12]), 'file:truncated')]
+        except Exception as e:
+            rec['impl'] = 'exc:%s' % type(e).__name__
+            rec['fails'] = [('reading a file-like body raises %s: %s' % (type(e).__name__, e), 'file:raises')]
+        rec['lines'] = ['fgen %s %s' % ('N' if case['count'] is None else case['count'], L(H(c) for c in f.log))]
+        rec['hist'] = ['fgen:' + ('limited' if case['count'] is not None else 'plain'),
+                       'fgen:reads:' + ('short' if any(0 < len(x) < case['size'] for x in f.log[:-1]) else 'full')]
+        rec['nontrivial'] = bool(data)
     elif t == 'q':
         try:
             rec['impl'] = str(q_expect(case['v']))
@@ -1736,6 +1858,9 @@ def settle(ctx, recs, compare=True):
                 continue
             if list(m) != list(impl):
                 ctx.disagree(case, list(impl), list(m), 'encode + gzip: status / Content-Type / decision / headers differ')
+        elif t == 'fgen':
+            if o != impl:
+                ctx.disagree(case, impl[:300], o[:300], 'file_generator: chunks yielded for these read results differ')
         elif t == 'q':
             m = str(model_q(o))
             if m != impl:
@@ -1755,8 +1880,24 @@ def settle(ctx, recs, compare=True):
                              'real member', o[-120:], 'gzip member differs from the model frame (header / trailer / optional fields)')
 
 
+def gen_fgen_case(rng):
+    """file_generator / file_generator_limited over a reader with short reads: segment sizes around the chunk size"""
+    size = rng.choice([1, 2, 3, 8, 64, 4096])
+    segs = []
+    for _ in range(rng.choice([0, 1, 1, 2, 3, 5, 9])):
+        n = rng.choice([0, 1, 1, size - 1, size, size + 1, 2 * size, 2 * size + 1, rng.randint(1, 3 * size + 2)])
+        segs.append(rng.randbytes(min(max(n, 0), 10000)))
+    total = sum(len(x) for x in segs)
+    count = None
+    if rng.random() < 0.5:
+        count = rng.choice([total, total, total, 0, 1, max(total - 1, 0), total + 1, rng.randint(0, total + 3)])
+    return {'t': 'fgen', 'chunks': [x.hex() for x in segs], 'size': size, 'count': count}
+
+
 def gen_stream(rng, n_gz, n_cs, n_els, n_crc, n_unit, n_big, n_both=0, n_q=0):
     cases = []
+    for i in range(n_unit):
+        cases.append(gen_fgen_case(rng))
     for i in range(n_both):
         cases.append(gen_both_case(rng))
     for i in range(n_q):
